@@ -587,6 +587,21 @@ pub fn run(ctx: &Ctx) -> Report {
             report.outcomes.insert(1);
             return report;
         }
+        if v["family"] == "S" {
+            let sc: SchedCase = serde_json::from_value(v["case"].clone()).expect("case");
+            let schedule: Vec<usize> = serde_json::from_value(v["schedule"].clone()).expect("schedule");
+            let keys = needed_keys(std::slice::from_ref(&sc.case));
+            if let Err(e) = u.build_all(&keys) {
+                report.machinery_errors.push(e);
+                return report;
+            }
+            if let Err(e) = run_sched_case(ctx, &mut u, &sc, 0, &mut report, Some(schedule)) {
+                report.machinery_errors.push(e);
+            }
+            report.outcomes.insert(0);
+            report.outcomes.insert(1);
+            return report;
+        }
         let case: Case = serde_json::from_value(v["case"].clone()).expect("case");
         let keys = needed_keys(std::slice::from_ref(&case));
         if let Err(e) = u.build_all(&keys) {
@@ -602,14 +617,21 @@ pub fn run(ctx: &Ctx) -> Report {
         return report;
     }
     let all = cases(ctx.tier);
-    let keys = needed_keys(&all);
+    let mut keys = needed_keys(&all);
+    keys.extend(needed_keys(&sched_cases(ctx.tier).iter().map(|s| s.case.clone()).collect::<Vec<_>>()));
+    let t_build = std::time::Instant::now();
     if let Err(e) = u.build_all(&keys) {
         report.machinery_errors.push(format!("universe: {e}"));
         return report;
     }
+    report.max_counter("max_universe_build_ms", t_build.elapsed().as_millis() as u64);
     report.max_counter("max_universe_blocks", u.valid.len() as u64);
     report.max_counter("max_cases_total", all.len() as u64);
+    let only = std::env::var("VERIF_C01_ONLY").ok();
     for (idx, case) in all.iter().enumerate() {
+        if only.as_deref().map(|o| o != "A").unwrap_or(false) {
+            break;
+        }
         if !ctx.mine(idx as u64) {
             continue;
         }
@@ -625,10 +647,403 @@ pub fn run(ctx: &Ctx) -> Report {
             }
         }
     }
+    if report.machinery_errors.is_empty() && report.cap_hit.is_none() && std::env::var("VERIF_C01_ONLY").map(|v| v != "A" && v != "D").unwrap_or(true) {
+        run_sched(ctx, &mut u, &mut report);
+    }
     report.count("forge_audits", u.audited);
     drop(u);
-    if report.machinery_errors.is_empty() && report.cap_hit.is_none() {
+    if report.machinery_errors.is_empty() && report.cap_hit.is_none() && only.as_deref().map(|o| o == "D").unwrap_or(true) {
         run_dyn(ctx, &mut report, None);
     }
     report
+}
+
+// ---------------------------------------------------------------------------------------
+// Family S: thread interleavings.  The three production threads of the chain service run under
+// the gate scheduler (engine `sched`); every interleaving of their point-to-point blocks up to a
+// preemption bound is executed on a fresh real node, all blocks of the case queued up front (the
+// service thread takes them in order whenever it is scheduled, so the time of queueing is not a
+// degree of freedom).
+
+#[derive(Clone, Debug, Serialize, Deserialize)]
+pub struct SchedCase {
+    pub case: Case,
+    pub bound: usize,
+}
+
+fn sched_cases(tier: Tier) -> Vec<SchedCase> {
+    let mut out = vec![];
+    let mk = |pv: &[usize], bad: Option<(usize, Invalid)>, perm: &[usize], dup: u8, bound: usize| SchedCase { case: Case { pv: pv.to_vec(), bad, perm: perm.to_vec(), dup }, bound };
+    if !tier.is_thorough() {
+        // quick: the named scenarios at preemption bound 1
+        out.push(mk(&[0, 1], None, &[0, 1], 0, 1)); // S1 chain, pipeline overlap
+        out.push(mk(&[0, 1], None, &[1, 0], 0, 1)); // S2 child before parent
+        out.push(mk(&[0, 1], Some((1, Invalid::Dao)), &[0, 1], 0, 1)); // S4 invalid parent, then child
+        out.push(mk(&[0, 1], Some((1, Invalid::Dao)), &[1, 0], 0, 1)); // S4' child first
+        out.push(mk(&[0], Some((1, Invalid::Dao)), &[0], 1, 1)); // S5 invalid block twice back to back
+        out.push(mk(&[0, 1], Some((1, Invalid::TwoCellbases)), &[1, 0], 0, 1));
+        out.push(mk(&[0, 0, 2], None, &[0, 2, 1], 0, 1)); // S3 fork, heavier branch child-first
+        out.push(mk(&[0, 0], None, &[0, 1], 0, 1)); // equal-work siblings
+        return out;
+    }
+    // thorough: every tree of <= 2 blocks x labelling x permutation x duplicate pattern at bound 2,
+    // every tree of 3 blocks (all valid / one Dao-invalid block) x permutation at bound 1
+    for n in 1..=2usize {
+        for pv in parent_vectors(n) {
+            let mut labellings: Vec<Option<(usize, Invalid)>> = vec![None];
+            for i in 1..=n {
+                for k in INVALID_KINDS {
+                    labellings.push(Some((i, k)));
+                }
+            }
+            for bad in labellings {
+                for perm in permutations(n) {
+                    for dup in 0..3u8 {
+                        out.push(SchedCase { case: Case { pv: pv.clone(), bad, perm: perm.clone(), dup }, bound: 2 });
+                    }
+                }
+            }
+        }
+    }
+    for pv in parent_vectors(3) {
+        let mut labellings: Vec<Option<(usize, Invalid)>> = vec![None];
+        for i in 1..=3 {
+            labellings.push(Some((i, Invalid::Dao)));
+        }
+        for bad in labellings {
+            for perm in permutations(3) {
+                out.push(SchedCase { case: Case { pv: pv.clone(), bad, perm, dup: 0 }, bound: 1 });
+            }
+        }
+    }
+    out
+}
+
+#[derive(Clone, Debug, Default)]
+struct SchedOutcome {
+    violations: Vec<(String, String)>,
+    /// fingerprint of what the execution ended with (tip, verified set, answers)
+    end_fp: u64,
+    sites_fp: u64,
+    tip_idx: i64,
+    saw_orphan: bool,
+    tip_changes: usize,
+}
+
+/// One controlled execution of `seq` under the schedule `prefix` (then the default policy).
+fn sched_exec(ctx: &Ctx, cons: &ckb_chain_spec::consensus::Consensus, m: &Materialised, pv: &[usize], seq: &[usize], prefix: &[usize]) -> Result<crate::sched::Execution<SchedOutcome>, String> {
+    use crate::sched::*;
+    let n = m.blocks.len();
+    let genesis_hash = cons.genesis_hash();
+    let dir = ctx.scratch.join("run-s");
+    let _ = std::fs::remove_dir_all(&dir);
+    set_time(time_for_height(12));
+    let t0 = std::time::Instant::now();
+    let node = Node::boot(&dir, &NodeOpts::new(cons.clone()))?;
+    let t1 = t0.elapsed();
+    node.wait_startup()?;
+    if std::env::var("VERIF_SCHED_TIMING").is_ok() {
+        eprintln!("boot {:?} startup {:?}", t1, t0.elapsed());
+    }
+    let genesis_td = td(&node);
+    let by_hash: HashMap<packed::Byte32, usize> = m.blocks.iter().enumerate().map(|(i, b)| (b.hash(), i)).collect();
+    // reference: fully valid set over everything delivered
+    let delivered: BTreeSet<usize> = seq.iter().cloned().collect();
+    let in_v = |i: usize| -> bool {
+        let mut cur = i + 1;
+        loop {
+            if cur == 0 {
+                return true;
+            }
+            if !delivered.contains(&(cur - 1)) || !m.self_valid[cur - 1] {
+                return false;
+            }
+            cur = pv[cur - 1];
+        }
+    };
+    let depth_td = |i: usize| -> U256 {
+        let mut acc = genesis_td.clone();
+        let mut cur = i + 1;
+        while cur != 0 {
+            acc = acc + m.blocks[cur - 1].difficulty();
+            cur = pv[cur - 1];
+        }
+        acc
+    };
+    let v: Vec<usize> = (0..n).filter(|i| in_v(*i)).collect();
+    let w_star = v.iter().map(|i| depth_td(*i)).max().unwrap_or_else(|| genesis_td.clone());
+
+    let mut out = SchedOutcome::default();
+    let t_boot = std::time::Instant::now();
+    let ctl = Controller::install();
+    ctl.announce_deliveries(seq.len() as i64);
+    for &i in seq {
+        node.deliver_nowait(&m.blocks[i]);
+    }
+    let mut points: Vec<ChoicePoint> = vec![];
+    let mut prev: Option<usize> = None;
+    let mut diverged = None;
+    let mut prev_tip = genesis_hash.clone();
+    let mut prev_td = genesis_td.clone();
+    let mut sites: Vec<(usize, &'static str, i64)> = vec![];
+    let mut panicked = None;
+    loop {
+        match ctl.wait_stable(std::time::Duration::from_secs(15)) {
+            Stable::Choice(enabled) => {
+                // a consistent cut: every thread is parked or idle.  Monitors on the published tip.
+                let snap = node.shared.snapshot();
+                let tip = snap.tip_hash();
+                if tip != prev_tip {
+                    out.tip_changes += 1;
+                    let tip_td = snap.total_difficulty().clone();
+                    if tip_td <= prev_td {
+                        out.violations.push(("switch-without-more-work".into(), format!("published tip changed {prev_tip} -> {tip} with total difficulty {prev_td:#x} -> {tip_td:#x}")));
+                    }
+                    let ok = by_hash.get(&tip).map(|i| v.contains(i)).unwrap_or(false);
+                    if !ok {
+                        out.violations.push(("tip-not-fully-valid".into(), format!("published tip {tip} is not a fully valid delivered block")));
+                    }
+                    prev_tip = tip;
+                    prev_td = tip_td;
+                }
+                if node.chain().orphan_blocks_len() > 0 {
+                    out.saw_orphan = true;
+                }
+                let i = points.len();
+                let chosen = if i < prefix.len() {
+                    if enabled.iter().any(|e| e.role == prefix[i]) {
+                        prefix[i]
+                    } else {
+                        diverged = Some(format!("point {i}: role {} not enabled, enabled = {:?}", prefix[i], enabled.iter().map(|e| (e.role, e.site)).collect::<Vec<_>>()));
+                        break;
+                    }
+                } else {
+                    default_choice(&enabled, prev)
+                };
+                let e = enabled.iter().find(|e| e.role == chosen).unwrap();
+                sites.push((chosen, e.site, by_hash.get(&e.hash).map(|x| *x as i64).unwrap_or(-1)));
+                points.push(ChoicePoint { enabled: enabled.clone(), chosen, prev });
+                prev = Some(chosen);
+                ctl.grant(chosen);
+                if points.len() > 2000 {
+                    ctl.uninstall();
+                    return Err("more than 2000 scheduling points in one execution".into());
+                }
+            }
+            Stable::Quiescent => break,
+            Stable::Panicked(msg) => {
+                panicked = Some(msg);
+                break;
+            }
+            Stable::Timeout(s) => {
+                ctl.uninstall();
+                return Err(format!("no stable state within 15 s after {} points: {s}; sites so far {:?}", points.len(), sites.iter().rev().take(6).collect::<Vec<_>>()));
+            }
+        }
+    }
+    ctl.uninstall();
+    if std::env::var("VERIF_SCHED_TIMING").is_ok() {
+        eprintln!("sched_exec: {} points in {:?}", points.len(), t_boot.elapsed());
+    }
+    out.sites_fp = fp(&sites);
+    if let Some(d) = diverged {
+        node.shutdown();
+        return Ok(Execution { points, outcome: out, diverged: Some(d) });
+    }
+    if let Some(msg) = panicked {
+        out.violations.push(("chain-thread-panicked".into(), msg));
+        out.end_fp = fp(&"panicked");
+        node.shutdown();
+        return Ok(Execution { points, outcome: out, diverged: None });
+    }
+    // ---- final judgement (every block delivered, every thread idle, every queue empty)
+    let snap = node.shared.snapshot();
+    let tip = snap.tip_hash();
+    let tip_td = snap.total_difficulty().clone();
+    let tip_ok = tip == genesis_hash || by_hash.get(&tip).map(|i| v.contains(i)).unwrap_or(false);
+    if !tip_ok {
+        out.violations.push(("tip-not-fully-valid".into(), format!("tip {tip} is not in the fully valid delivered set")));
+    }
+    if tip_td != w_star {
+        out.violations.push(("tip-not-heaviest".into(), format!("tip total difficulty {tip_td:#x} != max over fully valid chains {w_star:#x}")));
+    }
+    if tip != prev_tip {
+        if tip_td <= prev_td {
+            out.violations.push(("switch-without-more-work".into(), format!("published tip changed {prev_tip} -> {tip} with total difficulty {prev_td:#x} -> {tip_td:#x}")));
+        }
+        out.tip_changes += 1;
+    }
+    {
+        let mut cur = tip.clone();
+        while cur != genesis_hash {
+            match snap.get_block_ext(&cur) {
+                Some(ext) if ext.verified == Some(true) => {
+                    if let Some(i) = by_hash.get(&cur) {
+                        if ext.total_difficulty != depth_td(*i) {
+                            out.violations.push(("recorded-total-difficulty-wrong".into(), format!("main-chain block #{} records total difficulty {:#x}", i + 1, ext.total_difficulty)));
+                        }
+                    }
+                }
+                other => out.violations.push(("main-chain-block-not-verified".into(), format!("main-chain block {cur} has ext {:?}", other.map(|e| e.verified)))),
+            }
+            cur = snap.get_block_header(&cur).map(|h| h.parent_hash()).unwrap_or(genesis_hash.clone());
+        }
+    }
+    let mut verified_set = BTreeSet::new();
+    for (i, b) in m.blocks.iter().enumerate() {
+        if let Some(ext) = node.shared.store().get_block_ext(&b.hash()) {
+            if ext.verified == Some(true) {
+                verified_set.insert(i);
+                if !v.contains(&i) {
+                    out.violations.push(("invalid-block-marked-verified".into(), format!("block #{} outside the fully valid set has verified=Some(true)", i + 1)));
+                }
+            }
+        }
+    }
+    let d = node.deliveries.lock().unwrap().clone();
+    let mut answers: BTreeMap<usize, (usize, usize, usize)> = BTreeMap::new(); // block -> (deliveries, answered, errs)
+    for e in &d {
+        let i = by_hash[&e.hash];
+        let a = answers.entry(i).or_insert((0, 0, 0));
+        a.0 += 1;
+        match &e.result {
+            Some(Ok(_)) => a.1 += 1,
+            Some(Err(msg)) => {
+                a.1 += 1;
+                a.2 += 1;
+                if v.contains(&i) {
+                    out.violations.push(("valid-block-reported-failed".into(), format!("fully valid block #{} was answered Err({msg})", i + 1)));
+                }
+            }
+            None => {}
+        }
+    }
+    for (i, (n_del, n_ans, _)) in &answers {
+        // every ancestor of every block was delivered, so nothing may still wait for a parent; a
+        // duplicate that arrived while the first copy was held as an orphan replaces it (one
+        // callback per held copy is dropped by design)
+        // a block whose parent never got stored (it failed the context-free checks) legitimately stays
+        // held; anything else without an answer has been lost
+        if *n_ans == 0 && node.chain().get_orphan_block(node.shared.store(), &m.blocks[*i].hash()).is_none() {
+            out.violations.push(("delivery-never-answered".into(), format!("block #{} was delivered {n_del} time(s), is not held as an orphan and was never answered although every thread is idle and every queue empty", i + 1)));
+        }
+    }
+    for &i in &delivered {
+        let b = &m.blocks[i];
+        if node.chain().get_orphan_block(node.shared.store(), &b.hash()).is_some() {
+            let ph = b.parent_hash();
+            let parent_is_orphan = node.chain().get_orphan_block(node.shared.store(), &ph).is_some();
+            let parent_stored = ph == genesis_hash || node.shared.store().get_block_header(&ph).is_some();
+            if parent_stored && !parent_is_orphan {
+                out.violations.push(("orphan-not-connected".into(), format!("block #{} is still held as an orphan although its parent is stored, every thread is idle and every queue empty", i + 1)));
+            }
+        }
+    }
+    for &i in &v {
+        if node.shared.store().get_block(&m.blocks[i].hash()).is_none() {
+            out.violations.push(("valid-block-not-stored".into(), format!("fully valid delivered block #{} is not in the store", i + 1)));
+        }
+    }
+    out.tip_idx = by_hash.get(&tip).map(|i| *i as i64).unwrap_or(-1);
+    out.end_fp = fp(&(out.tip_idx, &verified_set, answers.iter().map(|(k, a)| (*k, a.1, a.2)).collect::<Vec<_>>()));
+    let t2 = std::time::Instant::now();
+    node.shutdown();
+    if std::env::var("VERIF_SCHED_TIMING").is_ok() {
+        eprintln!("shutdown {:?}", t2.elapsed());
+    }
+    Ok(Execution { points, outcome: out, diverged: None })
+}
+
+fn seq_of(case: &Case) -> Vec<usize> {
+    let mut seq: Vec<usize> = vec![];
+    match case.dup {
+        1 => {
+            for &i in &case.perm {
+                seq.push(i);
+                seq.push(i);
+            }
+        }
+        2 => {
+            seq.extend(case.perm.iter().cloned());
+            seq.extend(case.perm.iter().cloned());
+        }
+        _ => seq.extend(case.perm.iter().cloned()),
+    }
+    seq
+}
+
+fn run_sched_case(ctx: &Ctx, u: &mut TreeUniverse, sc: &SchedCase, case_idx: u64, report: &mut Report, only_schedule: Option<Vec<usize>>) -> Result<(), String> {
+    use crate::sched::*;
+    let root_is_mine = ctx.mine(case_idx);
+    let m = materialise(u, &sc.case)?;
+    let seq = seq_of(&sc.case);
+    let cons = u.consensus.clone();
+    let pv = sc.case.pv.clone();
+    if let Some(schedule) = only_schedule {
+        // replay: the recorded schedule twice, observations must be identical
+        let a = sched_exec(ctx, &cons, &m, &pv, &seq, &schedule)?;
+        let b = sched_exec(ctx, &cons, &m, &pv, &seq, &schedule)?;
+        if a.outcome.sites_fp != b.outcome.sites_fp || a.outcome.end_fp != b.outcome.end_fp {
+            return Err("replay of the recorded schedule is not deterministic".into());
+        }
+        report.traces += 2;
+        report.evaluations += 1;
+        for (k, what) in &a.outcome.violations {
+            report.violation(format!("S/{k}"), format!("{what} (replayed twice, identical observations)"), json!({"family": "S", "case": sc, "schedule": schedule}));
+        }
+        return Ok(());
+    }
+    let mut run = |prefix: &[usize]| sched_exec(ctx, &cons, &m, &pv, &seq, prefix);
+    let mut local = Report::new();
+    let case_fp = fp(&(&sc.case, sc.bound));
+    let mut ends: BTreeSet<u64> = BTreeSet::new();
+    let mut visit = |x: &Execution<SchedOutcome>, prefix: &[usize]| -> bool {
+        // every shard runs the root schedule (its alternatives are what is sharded); it is counted
+        // and judged by one of them
+        if prefix.is_empty() && !root_is_mine {
+            return true;
+        }
+        local.traces += 1;
+        local.transitions += x.points.len() as u64;
+        local.states.insert(fp(&(case_fp, x.outcome.sites_fp)));
+        local.outcomes.insert(x.outcome.end_fp);
+        ends.insert(x.outcome.end_fp);
+        if x.outcome.saw_orphan || x.outcome.tip_changes > 1 {
+            local.nontrivial.insert(fp(&(case_fp, x.outcome.sites_fp)));
+        }
+        let schedule: Vec<usize> = x.points.iter().map(|p| p.chosen).collect();
+        for (k, what) in &x.outcome.violations {
+            local.violation(format!("S/{k}"), format!("{what} (case {:?}, schedule of {} grants)", sc.case, schedule.len()), json!({"family": "S", "case": sc, "schedule": schedule}));
+        }
+        true
+    };
+    let stats = explore(sc.bound, 200_000, &mut run, &mut visit, &|unit| ctx.mine(unit + case_idx))?;
+    if root_is_mine {
+        local.evaluations += 1;
+        local.count("family_S_cases", 1);
+    }
+    local.count("family_S_schedules", stats.schedules - if root_is_mine { 0 } else { 1 });
+    local.max_counter("max_family_S_points_per_schedule", stats.max_points as u64);
+    local.max_counter("max_family_S_distinct_end_states_of_one_case", ends.len() as u64);
+    if stats.capped {
+        local.cap_hit = Some(format!("family S: schedule cap reached for {:?}", sc.case));
+    }
+    report.merge(local);
+    Ok(())
+}
+
+fn run_sched(ctx: &Ctx, u: &mut TreeUniverse, report: &mut Report) {
+    let all = sched_cases(ctx.tier);
+    let t_s = std::time::Instant::now();
+    for (idx, sc) in all.iter().enumerate() {
+        if ctx.out_of_time() {
+            report.cap_hit = Some(format!("wall budget reached in family S at case {idx} of {}", all.len()));
+            return;
+        }
+        if let Err(e) = run_sched_case(ctx, u, sc, idx as u64, report, None) {
+            report.machinery_errors.push(format!("family S case #{idx} {sc:?}: {e}"));
+            return;
+        }
+    }
+    report.max_counter("max_family_S_wall_ms_per_worker", t_s.elapsed().as_millis() as u64);
 }
